@@ -1,7 +1,7 @@
 (** C14 -- scripts execute exactly the command sequence their block structure
     prescribes; unbalanced scripts are diagnosed. Statements only. *)
 From Cicada Require Import Base.Chars Base.Peg Gen.LocustGrammar Model.Script Model.ScriptAst
-  Proofs.ScriptProofs Proofs.PegProofs Proofs.LocustParse Proofs.LocustBlocks Proofs.LocustIndent
+  Proofs.ScriptProofs Proofs.PegProofs Proofs.LocustParse Proofs.LocustBlocks Proofs.LocustIndent Proofs.LocustFull
   Model.Cmds Model.ListExec Model.CondLine Proofs.ListExecProofs Proofs.CmdsProofs Proofs.CondProofs.
 From Coq Require Import ZArith String Ascii.
 
@@ -162,6 +162,20 @@ Definition wit_kw : block :=
 Example C14_parse_kwprefix_nonvacuous :
   fragI_block wit_kw = true /\ wfp_block wit_kw = true /\ parse_ok wit_kw.
 Proof. split; [vm_compute; reflexivity|]. split; [vm_compute; reflexivity|]. prove_parse_ok. Qed.
+
+(** C14_parse_full, as far as it is a theorem: for EVERY script of the property's own domain wfp_block
+    (ScriptAst.v: any indentation, blank lines, both head spellings, any nesting) whose conditions and word
+    lists hold no `;` (csf_block), the parser with the fuel it computes from the input delivers exactly the
+    ideal tree -- or runs out of fuel (never seen by L1a / L1b; peg_fuel is not proved adequate).
+    Outside: a `;` inside a condition / word list (an and-or list `a; b` as a condition), and the fuel bound. *)
+Theorem C14_parse_full_nosemi : forall b, wfp_block b = true -> csf_block b = true ->
+  parse_from l_grammar L_EXP (render_block b) = PFuel \/ parse_ok b.
+Proof. exact parse_full_nosemi. Qed.
+Check C14_parse_full_nosemi : forall b, wfp_block b = true -> csf_block b = true ->
+  parse_from l_grammar L_EXP (render_block b) = PFuel \/ parse_ok b.
+Example C14_parse_full_nosemi_nonvacuous :
+  wfp_block wit_ind = true /\ csf_block wit_ind = true /\ wfp_block wit2 = true /\ csf_block wit2 = true.
+Proof. vm_compute. repeat split. Qed.
 
 (** the round-3 fragment is the special case without indentation and blank lines *)
 Theorem C14_parse_indented_extends : forall b, frag_block b = true -> fragI_block b = true.
@@ -356,6 +370,7 @@ Print Assumptions C14_parse_indented.
 Print Assumptions C14_parse_indented_from.
 Print Assumptions C14_parse_indented_extends.
 Print Assumptions C14_parse_semicolon.
+Print Assumptions C14_parse_full_nosemi.
 Print Assumptions C14_parse_while_pos.
 Print Assumptions C14_parse_instances.
 Print Assumptions C14_anchor_sound.
